@@ -3,8 +3,13 @@
 A real provider (tutorial role providers + harness operations registered through the real SCO registry: succeed, FinMod, return
 Fail / Cnclld / CnclldMan, raise, blocked; each in queued and in direct mode) and 1-4 real consumers over the loop-back transport.
 
-(live)   requests through the real consumer service clients, sequential and from concurrent consumer threads, bursts against a
-         blocked worker (queue of 10 -> queue.Full -> SOAP fault = "fault, no states"), unknown operation handles.
+(live)   requests through the real consumer service clients, sequential and from concurrent consumer threads (1 or 3 threads per
+         consumer), bursts against a blocked worker (harness operation or gated tutorial operation with its real handler; queue of
+         10 -> queue.Full -> SOAP fault = "fault, no states"; sizes around the boundary 10/11/12 and seeded random sizes), unknown
+         operation handles (never registered, withdrawn, existing non-operation handle, while the worker is blocked).
+         Provider-side schedules: http_first (as it happens) and worker_first (the enqueuing HTTP thread is held until the worker
+         has emitted everything: reports reach the consumers before the Wait response).  Sync and async subscription manager.
+         Ids that appear ONLY in reports (their request got a fault) are judged too: nothing or a legal sequence.
          Wire monitors (responses + OperationInvokedReport bodies parsed with lxml only): TransactionId unique and increasing in
          real-time order; per transaction and subscriber the automaton of the statement; raising handler -> Fail + error info;
          unknown operation -> Fail / fault and snap(mdib) unchanged.  Future monitors: completes exactly once, final state, own
@@ -274,6 +279,7 @@ class Rig:
         self.poison_reported = False
         del POISON[:]
         self.seen_ids = {}  # txid -> request summary (all evaluations of this rig)
+        self.tx_hist = {}  # txid -> what was evaluated for it in earlier windows (response state, report states per subscriber)
         self.max_done = (-1, None)  # highest id whose response had returned, its request
 
     # -- witnesses ------------------------------------------------------------------------------------------------
@@ -549,7 +555,7 @@ class Rig:
         for netloc, msgs in reports.items():
             for m in sorted(msgs, key=lambda x: x['seq']):
                 for p in m['parts']:
-                    by_tx[p['txid']][netloc].append(p)
+                    by_tx[p['txid']][netloc].append({**p, 't0': m['t0']})
         resp_by_tx = {r['resp']['txid']: r for r in ok}
         faulted = [r for r in requests if r['resp'].get('fault')]
         ctx.count('wire.faulted_requests_judged', len(faulted))
@@ -586,6 +592,15 @@ class Rig:
                                             'report_states': states, 'handler': hl, 'subscriber': netloc, 'mdib_file': self.mdib_file})
                 final_states.update(s for s in [r['resp']['state']] + states if s in im.FINAL)
             result[txid] = {'final': sorted(final_states), 'views': views, 'resp': r['resp'], 'mode': mode}
+            self.tx_hist[txid] = {'resp_state': r['resp']['state'], 'mode': mode, 'req': r['req'],
+                                  'views': {n: [p['state'] for p in v] for n, v in views.items()}}
+            if r['resp']['state'] == 'Wait' and views:
+                # which schedule was it: the final report on the wire before / after the Wait response had returned
+                early = any(p['state'] in im.FINAL and p['t0'] is not None and p['t0'] < r['t1'] for v in views.values() for p in v)
+                ctx.count('wire.queued.final_report_' + ('before' if early else 'after') + '_response')
+            missing_subs = [n for n in self.netlocs if n not in views] if views else []
+            if missing_subs:
+                ctx.count('obs.subscriber_without_reports', len(missing_subs))
             # (c) raising handler -> Fail + error information
             if hl and hl[0] == 'raise':
                 ctx.count(f'raise.checked.{mode}')
@@ -612,38 +627,47 @@ class Rig:
 
     def _judge_unanswered(self, txid, views, faulted, where):
         """states reported for a transaction id that no Set response of this window announced.  Every window is closed at a quiescent
-        point, so either the id belongs to a transaction that was completely evaluated earlier (nothing may be reported for it any
-        more), or its request was answered with a fault / not at all: then whatever IS reported for it must still be a legal sequence
-        (the statement's 'Wait, Start, one final state' or one final state) - 'fault, no states' is the legal normal case and does not
-        come here at all."""
+        point, so either the id belongs to a transaction that was evaluated in an earlier window (then the automaton is run again over
+        everything reported for it so far), or its request was answered with a fault / not at all: then whatever IS reported for it
+        must still be a legal sequence (the statement's 'Wait, Start, one final state' or one final state) - 'fault, no states' is the
+        legal normal case and does not come here at all."""
         ctx = self.ctx
         detail = {'where': where, 'txid': txid, 'mdib_file': self.mdib_file,
                   'faulted_requests_in_this_window': [r['req'] for r in faulted][:5], 'n_faulted': len(faulted)}
-        if txid in self.seen_ids and self.seen_ids[txid].get('req') is not None:
-            ctx.count('unanswered.late_reports')
-            self.witness('automaton.late_report', 'a report for a transaction whose processing had finished before (response and all reports '
-                         'were evaluated at an earlier quiescent point)',
-                         {**detail, 'states': {n: [p['state'] for p in parts] for n, parts in views.items()}, 'request': self.seen_ids[txid]['req']})
-            return
+        hist = self.tx_hist.get(txid)
+        if hist is None:
+            hist = self.tx_hist[txid] = {'resp_state': None, 'mode': 'unanswered', 'req': None, 'views': {}}
+            self.seen_ids.setdefault(txid, {'req': 'reports only (request answered with a fault)', 'thread': None})
+        else:
+            ctx.count('late_reports.transactions_rejudged')
+            detail['note'] = 'the last report(s) arrived after the worker had gone back to its queue (earlier quiescent point)'
         emitted = set()
         for netloc, parts in views.items():
-            states = [p['state'] for p in parts]
-            ctx.count('unanswered.sequences_judged')
-            ctx.count(f'unanswered.shape.{"-".join(str(s) for s in states)}')
-            if len(states) == 1 and states[0] in im.FINAL:
-                problems = []  # directly one final state
+            states = hist['views'].get(netloc, []) + [p['state'] for p in parts]
+            hist['views'][netloc] = states
+            if hist['resp_state'] is None:
+                ctx.count('unanswered.sequences_judged')
+                ctx.count(f'unanswered.shape.{"-".join(str(x) for x in states)}')
+                if len(states) == 1 and states[0] in im.FINAL:
+                    problems = []  # directly one final state
+                else:
+                    problems = im.check_sequence('Wait', states, True)
+                if not problems:
+                    ctx.count('obs.unanswered_transaction_with_complete_sequence')
+                what = ('states were reported for a transaction id that no Set response announced (request answered with a fault), '
+                        'and they are not a legal sequence: ')
             else:
-                problems = im.check_sequence('Wait', states, True)
-            if not problems:
-                ctx.count('obs.unanswered_transaction_with_complete_sequence')
+                problems = im.check_sequence(hist['resp_state'], states, True)
+                what = ''
             for suffix, text in problems:
-                key = f'automaton.{suffix}.unanswered'
+                key = f'automaton.{suffix}.{hist["mode"]}'
+                if suffix == 'final_mismatch':
+                    key += f'.response_{hist["resp_state"]}'
                 if (key, text) in emitted:
                     continue
                 emitted.add((key, text))
-                self.witness(key, 'states were reported for a transaction id that no Set response announced (request answered with a fault), '
-                             'and they are not a legal sequence: ' + text, {**detail, 'report_states': states, 'subscriber': netloc})
-        self.seen_ids.setdefault(txid, {'req': None, 'thread': None, 'reports_only': True})
+                self.witness(key, what + text, {**detail, 'response_state': hist['resp_state'], 'report_states': states, 'subscriber': netloc,
+                                                'request': hist['req']})
 
     def evaluate_futures(self, wire_result, reports, where='live'):
         """consumer-side monitors for the live part (exact delivery order unknown: interleaving keeps W,S,F order)."""
@@ -841,14 +865,21 @@ def w_live_concurrent(ctx: core.Ctx, arg):
             pool = _all_specs(rig, ('direct',) if arg.get('direct_only') else ('queued', 'direct'))
             if not arg.get('direct_only'):
                 pool = pool + list(rig.tutorial_ops) * 2
-            plans = [[(rng.choice(pool), rng.randrange(1000)) for _ in range(arg['per_thread'])] for _ in rig.consumers]
-            start = threading.Barrier(len(rig.consumers))
+            # threads_per_consumer > 1: several calls of ONE consumer in flight at the same time through the real stack (one shared
+            # OperationsManager, responses and reports of its transactions interleave as the scheduler likes)
+            tpc = arg.get('threads_per_consumer', 1)
+            owners = [ci for ci in range(len(rig.consumers)) for _ in range(tpc)]
+            plans = [[(rng.choice(pool), rng.randrange(1000)) for _ in range(max(2, arg['per_thread'] // tpc))] for _ in owners]
+            start = threading.Barrier(len(owners))
 
             def body(ci, plan):
                 start.wait(WATCHDOG_S)
                 for spec, n in plan:
                     rig.issue(ci, spec, n)
-            threads = [threading.Thread(target=body, args=(ci, plan), name=f'vf-consumer-{ci}') for ci, plan in enumerate(plans)]
+                    if tpc > 1:
+                        ctx.count('live.shared_consumer_requests')
+            threads = [threading.Thread(target=body, args=(ci, plan), name=f'vf-consumer-{ci}.{k}')
+                       for k, (ci, plan) in enumerate(zip(owners, plans))]
             for t in threads:
                 t.start()
             for t in threads:
@@ -863,7 +894,8 @@ def w_live_concurrent(ctx: core.Ctx, arg):
             for plan in plans:
                 for spec, _n in plan:
                     ctx.case(('live.conc', arg['n_consumers'], spec['kind'], spec['outcome'], spec['mode'], bool(arg.get('yield_injection')),
-                              bool(arg.get('yield_collector')), bool(arg.get('worker_first')), bool(arg.get('async_mgr'))))
+                              bool(arg.get('yield_collector')), bool(arg.get('worker_first')), bool(arg.get('async_mgr')),
+                              arg.get('threads_per_consumer', 1)))
             if rig.poisoned:
                 break  # subscriptions are flagged, transactions dropped: this rig says nothing more
     except Watchdog as ex:
@@ -1571,7 +1603,12 @@ def run(ctx: core.Ctx):
                 'higher ids), shape = (kind, outcome, mode, order, grouping, response position, foreign yes/no); sched: one case '
                 'per side (caller/reporter) x unprotected scheduling point x pending reports (none on the intact tree; dry runs '
                 'counted). '
-                'Non-trivial: the provider answered with a Set response (faults are counted as observations only).')
+                'Live workloads additionally vary the provider-side schedule (http_first: the Wait response returns before the worker '
+                'emits; worker_first: the enqueuing thread is held until the worker has emitted Wait/Start/final), the subscription '
+                'manager (sync/async), the consumer dispatcher (synchronous/deferred), threads per consumer (1/3) and, in bursts, the '
+                'blocked operation (harness / gated tutorial operation, possibly in another SCO), sizes 5-30 incl. the boundary 10/11/12. '
+                'Non-trivial: the provider answered with a Set response; a request answered with a fault is judged through the '
+                'reports that carry an id no response announced (none = legal; otherwise they must be a legal sequence).')
     ctx.assumptions += [
         'reports of one transaction reach one subscriber through one HTTP connection; all permutations are nevertheless exercised',
         f'foreign parts between the first own report and the response <= {FOREIGN_BOUND} (manager buffer: 50 parts)',
@@ -1580,32 +1617,22 @@ def run(ctx: core.Ctx):
         'an immediately final Fail/Cnclld/CnclldMan response completes the Future with an empty part list: accepted (DESIGN C09 S)',
         'queue.Full after put(timeout=1): SOAP fault after an id was consumed = legal "fault, no states" observation; the 1 s '
         'timeout is virtualised (MonitoredQueue.vf_fast_full: a put with timeout on a full queue raises at once) except in one burst',
+        'a transaction id that appears only in reports (request answered with a fault): accepted if the reports alone are [Wait] Start Final '
+        'or one final state (the operation was executed although the requester got a fault - not covered by the statement, counted as '
+        'obs.unanswered_transaction_with_complete_sequence); anything else, e.g. Wait and nothing more, is a violation (automaton.*.unanswered)',
+        'reports that arrive after the quiescent point at which their transaction was judged are appended and the transaction is judged again',
+        'worker_first schedule: MonitoredQueue.put returns to the enqueuing thread only after the worker came back to get() (item counters; the '
+        '20 s guard only detects a hang and makes the run inconclusive)',
         'sco.time is left real (two 1 ms sleeps per queued transaction); quiescence is decided on the monitored worker queue',
         'statement-strict automaton: response Wait requires reports [Wait] Start Final; Wait report optional',
     ]
     q = ctx.quick
     jobs = []
     files = ['mdib_two_mds.xml', '70041_MDIB_Final.xml'] if q else ['mdib_two_mds.xml', '70041_MDIB_Final.xml', '70041_MDIB_multi.xml', 'mdib_tns.xml']
-    for k, f in enumerate(files):
-        jobs.append({'w': 'seq', 'mdib_file': f, 'n_consumers': 2, 'sync': True, 'reps': 1 if q else 3, 'sample': k == 0})
-    jobs.append({'w': 'seq', 'mdib_file': 'mdib_two_mds.xml', 'n_consumers': 2, 'sync': False, 'reps': 1 if q else 3})
-    n_conc = 4 if q else 16
-    for i in range(n_conc):
-        jobs.append({'w': 'conc', 'i': i, 'mdib_file': files[i % len(files)], 'n_consumers': 1 + (i + 3) % 4, 'rounds': 3 if q else 12,
-                     'per_thread': 12 if q else 25, 'sync': i % 3 != 2, 'tiny_switch': i % 2 == 0})
-    for i in range(1 if q else 3):
-        jobs.append({'w': 'conc', 'i': 100 + i, 'mdib_file': 'mdib_two_mds.xml', 'n_consumers': 4, 'rounds': 2 if q else 6,
-                     'per_thread': 15 if q else 30, 'sync': True, 'yield_injection': True, 'direct_only': True})
-    for i in range(1 if q else 2):
-        jobs.append({'w': 'conc', 'i': 200 + i, 'mdib_file': files[i % len(files)], 'n_consumers': 3, 'rounds': 2 if q else 4,
-                     'per_thread': 10 if q else 20, 'sync': True, 'yield_collector': True})
-    jobs.append({'w': 'burst', 'mdib_file': 'mdib_two_mds.xml', 'n_consumers': 3, 'bursts': [5, 14] if q else [5, 11, 12, 20, 30], 'mixed': False})
-    jobs.append({'w': 'burst', 'mdib_file': '70041_MDIB_Final.xml', 'n_consumers': 4, 'bursts': [24] if q else [9, 17, 24, 30], 'mixed': True})
-    jobs.append({'w': 'burst', 'mdib_file': 'mdib_two_mds.xml', 'n_consumers': 4, 'bursts': [13] if q else [13, 16], 'mixed': False,
-                 'real_timeout': True})
     kinds = list(OP_CLASSES)
     outcomes = list(OUTCOMES)
     foreign_choices = [0, 0, 0, 1, 1, 2, 3, 6, 12] if q else [0, 0, 1, 2, 3, 5, 12, 25]  # + FOREIGN_BOUND in every 24th case
+    # the perm jobs are the long ones: started first
     if q:
         jobs.append({'w': 'perm', 'i': 0, 'mdib_file': 'mdib_two_mds.xml', 'kinds': ['SetString'], 'outcomes': outcomes, 'merged': True,
                      'foreign_choices': foreign_choices})
@@ -1630,6 +1657,53 @@ def run(ctx: core.Ctx):
             jobs.append({'w': 'perm', 'i': i, 'mdib_file': f, 'kinds': [], 'outcomes': [], 'merged': True, 'tutorial': True, 'reps': 2,
                          'foreign_choices': foreign_choices})
             i += 1
+    for k, f in enumerate(files):
+        jobs.append({'w': 'seq', 'mdib_file': f, 'n_consumers': 2, 'sync': True, 'reps': 1 if q else 3, 'sample': k == 0})
+    jobs.append({'w': 'seq', 'mdib_file': 'mdib_two_mds.xml', 'n_consumers': 2, 'sync': False, 'reps': 1 if q else 3})
+    # provider-side schedule 'worker first' (everything the worker emits is on the wire before the enqueuing thread goes on) and the
+    # asynchronous subscription manager, each with synchronous and deferred consumer dispatch
+    jobs.append({'w': 'seq', 'mdib_file': 'mdib_two_mds.xml', 'n_consumers': 2, 'sync': False, 'reps': 1 if q else 2, 'worker_first': True})
+    jobs.append({'w': 'seq', 'mdib_file': '70041_MDIB_Final.xml', 'n_consumers': 2, 'sync': True, 'reps': 1 if q else 2, 'worker_first': True,
+                 'async_mgr': True})
+    jobs.append({'w': 'seq', 'mdib_file': 'mdib_two_mds.xml', 'n_consumers': 3, 'sync': True, 'reps': 1 if q else 2, 'async_mgr': True})
+    if not q:
+        jobs.append({'w': 'seq', 'mdib_file': '70041_MDIB_multi.xml', 'n_consumers': 2, 'sync': True, 'reps': 2, 'worker_first': True})
+        jobs.append({'w': 'seq', 'mdib_file': 'mdib_tns.xml', 'n_consumers': 2, 'sync': False, 'reps': 2, 'async_mgr': True})
+    n_conc = 4 if q else 16
+    for i in range(n_conc):
+        jobs.append({'w': 'conc', 'i': i, 'mdib_file': files[i % len(files)], 'n_consumers': 1 + (i + 3) % 4, 'rounds': 3 if q else 12,
+                     'per_thread': 12 if q else 25, 'sync': i % 3 != 2, 'tiny_switch': i % 2 == 0})
+    for i in range(1 if q else 3):
+        jobs.append({'w': 'conc', 'i': 100 + i, 'mdib_file': 'mdib_two_mds.xml', 'n_consumers': 4, 'rounds': 2 if q else 6,
+                     'per_thread': 15 if q else 30, 'sync': True, 'yield_injection': True, 'direct_only': True})
+    for i in range(1 if q else 2):
+        jobs.append({'w': 'conc', 'i': 200 + i, 'mdib_file': files[i % len(files)], 'n_consumers': 3, 'rounds': 2 if q else 4,
+                     'per_thread': 10 if q else 20, 'sync': True, 'yield_collector': True})
+    for i in range(1 if q else 4):
+        jobs.append({'w': 'conc', 'i': 300 + i, 'mdib_file': files[i % len(files)], 'n_consumers': 2 + i % 3, 'rounds': 2 if q else 6,
+                     'per_thread': 10 if q else 20, 'sync': i % 2 == 0, 'worker_first': True, 'async_mgr': i % 2 == 1})
+    for i in range(1 if q else 4):
+        jobs.append({'w': 'conc', 'i': 400 + i, 'mdib_file': files[i % len(files)], 'n_consumers': 2, 'rounds': 3 if q else 8,
+                     'per_thread': 24 if q else 36, 'sync': i % 2 == 0, 'threads_per_consumer': 3, 'worker_first': i % 4 == 2, 'tiny_switch': i % 4 == 3})
+    jobs.append({'w': 'burst', 'i': 0, 'mdib_file': 'mdib_two_mds.xml', 'n_consumers': 3, 'bursts': [5, 14] if q else [5, 11, 12, 20, 30], 'mixed': False})
+    jobs.append({'w': 'burst', 'i': 1, 'mdib_file': '70041_MDIB_Final.xml', 'n_consumers': 4, 'bursts': [24] if q else [9, 17, 24, 30], 'mixed': True})
+    jobs.append({'w': 'burst', 'i': 2, 'mdib_file': 'mdib_two_mds.xml', 'n_consumers': 4, 'bursts': [13] if q else [13, 16], 'mixed': False,
+                 'real_timeout': True})
+    # the boundary of the queue (10 fit behind the blocked one), unknown operations while the worker is blocked
+    jobs.append({'w': 'burst', 'i': 3, 'mdib_file': 'mdib_two_mds.xml', 'n_consumers': 1, 'bursts': [10, 11, 12], 'mixed': False,
+                 'unknown_while_blocked': True})
+    # a gated operation of the tutorial role providers (real handler), same SCO as the harness operations / another SCO, deferred consumers
+    jobs.append({'w': 'burst', 'i': 4, 'mdib_file': '70041_MDIB_Final.xml', 'n_consumers': 2, 'bursts': [13] if q else [13, 10, 'random', 'random'],
+                 'mixed': False, 'gate': 'tutorial', 'gate_op': 1})
+    jobs.append({'w': 'burst', 'i': 5, 'mdib_file': 'mdib_two_mds.xml', 'n_consumers': 3, 'bursts': [14, 'random'] if q else [14, 9, 'random', 'random', 'random'],
+                 'mixed': True, 'gate': 'tutorial', 'gate_op': 5, 'sync': False})
+    jobs.append({'w': 'burst', 'i': 6, 'mdib_file': '70041_MDIB_Final.xml', 'n_consumers': 4, 'bursts': [22] if q else [22, 'random', 'random'], 'mixed': True,
+                 'async_mgr': True, 'unknown_while_blocked': True})
+    if not q:
+        for i in range(6):
+            jobs.append({'w': 'burst', 'i': 10 + i, 'mdib_file': files[i % len(files)], 'n_consumers': 1 + i % 4, 'bursts': ['random'] * 4,
+                         'mixed': i % 2 == 0, 'gate': ('harness', 'tutorial')[i % 3 == 1], 'gate_op': i, 'sync': i % 3 != 2,
+                         'async_mgr': i % 4 == 3, 'unknown_while_blocked': i % 2 == 1})
     for i in range(2 if q else 8):
         jobs.append({'w': 'inflight', 'i': i, 'n': 400 if q else 4000})
     core.fanout(ctx, MODULE, 'dispatch', jobs, timeout=1500 if q else 3000)
@@ -1638,7 +1712,11 @@ def run(ctx: core.Ctx):
                           ('raise.checked.direct', 5), ('unknown_op.responses', 7), ('unknown_op.snapshots_compared', 2),
                           ('future.returned', 200), ('future.parts_compared', 200), ('perm.cases', 300),
                           ('perm.completed_by.response', 50), ('perm.completed_by.report', 50), ('sched.protected_points', 10),
-                          ('burst.faults', 3), ('yield.injected', 50), ('live.concurrent_rounds', 5)):
+                          ('burst.faults', 3), ('yield.injected', 50), ('live.concurrent_rounds', 5),
+                          ('wire.faulted_requests_judged', 10), ('burst.overflowing', 5), ('burst.gated_tutorial_operation', 2),
+                          ('sched.worker_first_puts', 50), ('wire.queued.final_report_before_response', 50),
+                          ('wire.queued.final_report_after_response', 50), ('rig.async_subscription_manager', 3),
+                          ('unknown_op.while_worker_blocked', 4), ('live.shared_consumer_requests', 50)):
         ctx.floor(name, minimum)
 
 
